@@ -1,6 +1,6 @@
 (* C13 - timeouts, deadlines and cancellation bound every blocked Acquire. *)
 From Coq Require Import ZArith List Bool.
-From GCL Require Import Model.Waiters Proofs.WaitersProofs Proofs.WaitersTimers.
+From GCL Require Import Model.Waiters Proofs.WaitersProofs Proofs.WaitersTimers Model.PollLTS Proofs.PollLTSProofs.
 Import ListNotations.
 Open Scope Z_scope.
 
@@ -55,3 +55,24 @@ Theorem C13_nobody_past_due fuel s target pref c : w_kind (ws_cfg s) <> KBlockin
   In c (ws_callers (advance fuel s target pref)) -> blocked c = true -> 0 < c_due c -> target < c_due c.
 Proof. exact (advance_nobody_past_due fuel s target pref c). Qed.
 Print Assumptions C13_nobody_past_due.
+
+(* The blocking limiter's poll period, at step granularity with an explicit clock (attempt / helper start / cond.Wait / release / broadcast /
+   tick / timer as separate steps, any number of callers, wake-ups lost or not): in every reachable state no caller is parked or asleep past
+   its poll instant, and that instant is at most one period away ... *)
+Theorem C13_blocking_poll_bound s0 s : PInv s0 -> preach s0 s -> PInv s.
+Proof. exact (poll_bound s0 s). Qed.
+Print Assumptions C13_blocking_poll_bound.
+
+(* ... and at its poll instant a caller that finds capacity free takes it: the wake-up lost in the window of known finding F8 costs a caller
+   of a limiter with a poll period at most that period (replayed on the implementation by raceF8poll). *)
+Theorem C13_blocking_poll_recovers s i d : nth_error (pthr s) i = Some (PAsleep d) \/ nth_error (pthr s) i = Some (PParked d) ->
+  d <= pnow s -> pbusy s < plimit s ->
+  exists s', prun s [PTimer i; PTry i] = Some s' /\ nth_error (pthr s') i = Some PHolding /\ pbusy s' = pbusy s + 1 /\ pnow s' = pnow s.
+Proof. exact (poll_recovers s i d). Qed.
+Print Assumptions C13_blocking_poll_recovers.
+
+Example C13_blocking_poll_witness :
+  prun {| pbusy := 1; plimit := 1; pnow := 0; pperiod := 3; pthr := [PHolding; PIdle] |}
+       [PTry 1%nat; PRel 0%nat; PBcast 0%nat; PSleep 1%nat; PTick; PTick; PTick; PTimer 1%nat; PTry 1%nat]
+  = Some {| pbusy := 1; plimit := 1; pnow := 3; pperiod := 3; pthr := [PDone; PHolding] |}.
+Proof. exact poll_witness. Qed.
